@@ -302,6 +302,41 @@ func ruleJSON3(c *Ctx) {
 	if !pi {
 		probs = append(probs, "integer branch is not strconv.ParseInt(item, 10, 64)")
 	}
+	// ParseInt's error is looked at (an integer literal beyond int64 must not
+	// be clamped silently): the result is assigned to a named variable that a
+	// condition tests, and the failing branch builds a Float
+	errChecked := containsNode(lit.Body, func(n ast.Node) bool {
+		as, ok := n.(*ast.AssignStmt)
+		if !ok || len(as.Lhs) != 2 || len(as.Rhs) != 1 {
+			return false
+		}
+		call, ok := as.Rhs[0].(*ast.CallExpr)
+		if !ok || FuncFullName(Callee(p, call)) != "strconv.ParseInt" {
+			return false
+		}
+		eid, ok := as.Lhs[1].(*ast.Ident)
+		if !ok || eid.Name == "_" {
+			return false
+		}
+		eo := p.TypesInfo.ObjectOf(eid)
+		return containsNode(lit.Body, func(m ast.Node) bool {
+			is, ok := m.(*ast.IfStmt)
+			if !ok || !containsNode(is.Cond, func(k ast.Node) bool { id, ok := k.(*ast.Ident); return ok && p.TypesInfo.Uses[id] == eo }) {
+				return false
+			}
+			return containsNode(is.Body, func(k ast.Node) bool {
+				cl, ok := k.(*ast.CompositeLit)
+				if !ok {
+					return false
+				}
+				tn, _ := namedName(p.TypesInfo.Types[cl].Type)
+				return tn == "Float"
+			})
+		})
+	})
+	if !errChecked {
+		probs = append(probs, "the range error of strconv.ParseInt is discarded: an integer literal beyond int64 (e.g. the encoding of the float 1e20) is clamped to MaxInt64 instead of staying a float")
+	}
 	// isFloat comes from scanWhile over the literal
 	fromScan := containsNode(lit.Body, func(n ast.Node) bool {
 		as, ok := n.(*ast.AssignStmt)
